@@ -31,6 +31,11 @@ def directed(tier):
         for k in range(0, 5 if tier == "thorough" else 3):
             for consume in range(0, k + 2):
                 out.append(_mk(op, k, "real", consume, 0.0, [0.002] * (k + 1), {"switch_pct": 30}, {"seg": "whole"}))
+    for k in (1, 2):
+        for consume in range(0, k + 1):
+            d = _mk("get", k, "real", consume, 0.0, [0.002] * (k + 1), {"switch_pct": 30}, {"seg": "whole"})
+            d["scp_dimse"] = 0.1
+            out.append(d)
     for pre in (["echo"], ["store"], ["find_full"], ["echo", "store"]):
         out.append(_mk("idle", 0, "real", 0, 0.0, [], {"switch_pct": 30}, {"seg": "whole"}, pre=pre))
         out.append(_mk("find", 2, "real", 1, 0.0, [0.002] * 3, {"switch_pct": 30}, {"seg": "whole"}, pre=pre))
@@ -77,6 +82,10 @@ def gen(rng, idx, tier):
     acc_delay = round(rng.choice([0.0, 0.0005, 0.001, 0.003]) * rng.random(), 6)
     sc = _mk(op, k, peer, consume, round(delay, 6), sleeps, C.gen_sched(rng), C.gen_net(rng), pre=pre, acc_delay=acc_delay,
              acc_what=rng.choice(["echo", "ner"]), acc_status=rng.choice([0x0000, 0x0000, 0x0110, 0x0113, 0xC000, 0xB000, 0x0001]))
+    if op == "get" and rng.randrange(2) == 0:
+        # the acceptor's DIMSE timeout is shorter than the requestor's ACSE timeout: if the SCP ends up waiting for a
+        # sub-operation response the releasing peer never sends, it is pynetdicom that gives up first (and aborts)
+        sc["scp_dimse"] = rng.choice([0.05, 0.1, 0.2])
     if peer == "raw" and op == "find" and k >= 2 and rng.randrange(2) == 0:
         _slow_reader(sc, rng.choice([128, 256, 512]), rng.choice([0.1, 0.2]), rng.choice([1.5, 3.0]))
     return sc
@@ -175,7 +184,9 @@ def execute(sc, ctx):
         return sc.get("acc_status", 0x0000), None
 
     sr = sc.get("slow_reader")
-    if sr:
+    if sc.get("scp_dimse"):
+        scp = ctx.make_ae("SCP", acse=total + 1, dimse=sc["scp_dimse"], network=total + 2)
+    elif sr:
         scp = ctx.make_ae("SCP", acse=sr["acse"], dimse=total + sr["pause"] + 1, network=total + sr["pause"] + 2)
     else:
         scp = ctx.make_ae("SCP", acse=total + 1, dimse=total + 1, network=total + 2)
@@ -290,7 +301,9 @@ def _analyse(sc, r):
 
 
 def check(sc, r):
-    out = C.generic_thread_death(r, ID)
+    from props import lifecycle as L
+
+    out, _dead = L.thread_deaths(ID, r)
     if r.failure:
         out.append(C.v("liveness", "C07/run-%s" % r.failure, "run ended %s: %s" % (r.failure, r.failure_info)))
         return out
@@ -306,7 +319,7 @@ def check(sc, r):
     if ab is not None:
         return out  # pynetdicom itself aborted: outside the property
     phase = _phase(sc, r)
-    where = "%s/%s" % (sc["op"] + ("-" + sc.get("acc_what", "echo") if sc["op"] == "acc_send" else ""), ("subop-pending" if phase.get("subop_pending") else ("local-send" if phase.get("local_send") else "handler")) if phase["active"] else "idle")
+    where = "%s/%s" % (sc["op"] + ("-" + sc.get("acc_what", "echo") if sc["op"] == "acc_send" else ""), (("subop-pending-past-dimse-timeout" if phase.get("past_dimse_timeout") else "subop-pending") if phase.get("subop_pending") else ("local-send" if phase.get("local_send") else "handler")) if phase["active"] else "idle")
     if rp is None:
         out.append(C.v("release-answered", "C07/no-release-rp/%s" % where,
                        "A-RELEASE-RQ delivered (seq %s, phase %s) but no A-RELEASE-RP written; acceptor events: released=%d aborted=%d" % (
@@ -345,7 +358,15 @@ def _phase(sc, r):
     calls = [h for h in r.hist if h["kind"] == "acc_send"]
     # (also when the call starts just after the request was delivered but before the reactor looked at it)
     local = any(h["phase"] == "call" for h in calls) and not any(h["phase"] == "return" and h["seq"] < s for h in calls)
-    return {"active": active or local, "yields": ny, "subop_pending": len(sent) > len(got), "local_send": local}
+    pending = len(sent) > len(got)
+    past = False
+    if pending and sc.get("scp_dimse"):
+        # the SCP's own DIMSE timeout ran out while it waited for the sub-operation response and the connection was
+        # still there: by then pynetdicom must have reacted (it aborts) - silence beyond that is not the known finding
+        t_sub = max(h["t"] for h in r.evts("acc0", "EVT_DIMSE_SENT") if h["msg"] == "C_STORE_RQ")
+        ends = [h["t"] for h in r.evts("acc0", "EVT_CONN_CLOSE")] or [r.now]
+        past = ends[0] - t_sub > sc["scp_dimse"] * 1.5 + 0.05
+    return {"active": active or local, "yields": ny, "subop_pending": pending, "local_send": local, "past_dimse_timeout": past}
 
 
 def nontrivial(sc, r):
